@@ -4,8 +4,9 @@
    operation model (model/Resolve.v) extended by the operations that can hold a HUGR of their own: constants
    with function values (`ops.Const(val.Function(body))`, possibly inside sum / tuple values).
 
-   Mirrors the code after the repair of D30 (`resolve_extensions` resolves the bodies of function-valued
-   constants too).  No proofs in this file. *)
+   `resolve_extensions` replaces the `Custom` operations of the nodes of the HUGR it is called on and nothing else;
+   the HUGRs inside constants are part of the frame (they are in the model because the dump, the serialised
+   document and the frame statement speak about them).  No proofs in this file. *)
 From Coq Require Import NArith List Bool Arith.
 Import ListNotations.
 From HV Require Import lib.Harness model.Types model.Resolve model.SerialHugr.
@@ -40,19 +41,15 @@ Section Map.
     {| h_nodes := map (option_map map_node) (h_nodes h); h_root := h_root h; h_links := h_links h |}.
 End Map.
 
-(* ---- resolution of one operation; a constant is resolved by resolving the bodies of its function values,
-   each by the loop of `resolve_extensions` (all nodes, in place: the node table mapped) ---- *)
-Fixpoint resolve_hop (reg : registry) (o : hop) : hop :=
+(* ---- the loop body of Hugr.resolve_extensions: only `Custom` operations are replaced.  A `Const` node is not
+   touched, whatever its value holds: the HUGR of a function value keeps its opaque operations (hugr-core's
+   resolve_value_exts descends into them; hugr-py does not, and the property speaks of the operations of the HUGR
+   being resolved only) ---- *)
+Definition resolve_hop (reg : registry) (o : hop) : hop :=
   match o with
   | HOp o => HOp (resolve_op reg o)                              (* isinstance(op, Custom): op.resolve(registry) *)
-  | HConst v => HConst (resolve_val reg v)                       (* isinstance(op, Const): _resolve_function_values *)
+  | HConst _ => o
   | HOther _ _ _ _ => o
-  end
-with resolve_val (reg : registry) (v : cval) : cval :=
-  match v with
-  | VFunc b => VFunc (map_hugr (resolve_hop reg) b)              (* value.body.resolve_extensions(registry) *)
-  | VSum k vs => VSum k (map (resolve_val reg) vs)
-  | VLeaf _ => v
   end.
 
 (* ---- Hugr.resolve_extensions as the loop it is: `for node in self: self[node].op = ...` ---- *)
